@@ -17,7 +17,7 @@ from mc.build import ci as CI
 from mc.build import im as IM
 from mc.build import misc as MISC
 from mc.build import ti as TI
-from mc.core.util import call
+from mc.core.util import call, exc_name
 from mc.models import ini
 
 ID = "C08"
@@ -399,7 +399,7 @@ def eval_cross(fmt, seed, edit):
             mod.apply_obj(obj, edit)
         b = call(lambda: d(obj))
     except (KeyError, IndexError, AttributeError, ValueError, TypeError) as exc:
-        b = ["exc", type(exc).__name__]
+        b = ["exc", exc_name(exc)]
     return {"scratch": "ok", "identical": b[0] == "ok" and a[1] == b[1], "reloaded_error": None if b[0] == "ok" else b[1]}
 
 
